@@ -109,6 +109,11 @@ def main_(prop, tier):
         runs = [('handlers/races', 'hx_handlers', [0], sorted(cand), True), ('handlers/results', 'hx_handlers', [0], sorted(cand), False)]
     for (label, entry, args, shared, races_only) in runs:
         t0 = time.time()
+        if label == 'handlers/results' and rep.violations:
+            # the race query already found unordered conflicting accesses to library state: with a data race the results are
+            # undefined anyway, and symbolic values read from the raced location only multiply the thread paths
+            rep.extra['handlers/results'] = 'skipped: data race(s) reported by handlers/races'
+            continue
         mt = irsym_mt.MT(irm, shared_globals=shared, timeout=600 if tier == 'quick' else 3000, max_steps=3000000, races_only=races_only)
         mt.init_state = irm.base_state
         ob = dict(hid='%s/%s' % (prop, label), engine='E2-mt irsym + z3 schedule encoding', bounds=dict(threads=label, shared=demangle(shared), memory_model='sequential consistency for values, C++11 happens-before for races'))
